@@ -668,6 +668,7 @@ asn_double2REAL(REAL_t *st, double dbl_value) {
 	char assertion_buffer1[9 - sizeof(dbl_value)] CC_NOTUSED;
 	char assertion_buffer2[sizeof(dbl_value) - 7] CC_NOTUSED;
 	uint8_t *ptr = buf;
+	uint8_t *mstart;	/* First byte of mantissa */
 	uint8_t *mstop;		/* Last byte of mantissa */
 	unsigned int mval;	/* Value of the last byte of mantissa */
 	unsigned int bmsign;	/* binary mask with sign */
@@ -809,8 +810,12 @@ asn_double2REAL(REAL_t *st, double dbl_value) {
 		*ptr++ = expval;
 	}
 
-	buflen = (mstop - dscr) + 1;
-	memcpy(ptr, dscr, buflen);
+	/* The shift above may have emptied the leading mantissa octets: 11.3.1 */
+	mstart = dscr;
+	while(mstart < mstop && *mstart == 0)
+		mstart++;
+	buflen = (mstop - mstart) + 1;
+	memcpy(ptr, mstart, buflen);
 	ptr += buflen;
 	buflen = ptr - buf;
 
